@@ -9,7 +9,7 @@ RULES = [
     dict(rule="R8", kind="lit", old="for _ in 0..write_plan.len() {", new="for __k in 0..write_plan.len() {", why="anonymous loop index named (needed by the invariant)"),
     dict(rule="R8", kind="re", pat=r"for \((\w+), (\w+), (\w+)\) in write_plan\.iter\(\) \{", repl=r"for __i in 0..write_plan.len() { let (\1, \2, \3) = (&write_plan[__i].0, &write_plan[__i].1, &write_plan[__i].2);", why="for (a,b,c) in v.iter() -> indexed loop"),
     dict(rule="R8", kind="re", pat=r"for block_id in revert_info\.allocated_block_ids\.iter\(\) \{", repl="for __j in 0..revert_info.allocated_block_ids.len() { let block_id = &revert_info.allocated_block_ids[__j];", why="for x in v.iter() -> indexed loop"),
-    dict(rule="R8", kind="re", pat=r"buffers\.get\((\w+)\)\.map\(\|b\| b\.len\(\)\)\.unwrap_or\(0\)", repl=r"(if \1 < buffers.len() { buffers[\1].len() } else { 0 })", why="get(i).map(|b| b.len()).unwrap_or(0) -> conditional index"),
+    dict(rule="R8", kind="re", pat=r"(\w+)\.get\((\w+)\)\.map\(\|(\w+)\| \3\.len\(\)\)\.unwrap_or\(0\)", repl=r"(if \2 < \1.len() { \1[\2].len() } else { 0 })", why="v.get(i).map(|b| b.len()).unwrap_or(0) -> conditional index"),
     dict(rule="R5", kind="re", pat=r"HashSet::new\(\)", repl="VxSet::new()", why="HashSet<String> -> ghost-set stand-in"),
     dict(rule="R6", kind="re", pat=r"(\w+)\.zero_range\(", repl=r"\1.zero_range(sys, ", why="Block::zero_range gets the ghost disk"),
     dict(rule="R6", kind="re", pat=r"(\w+)\.mmap\.flush\(\)", repl=r"sys_flush(sys, &\1.mmap)", why="SharedMmap::flush -> ghost-disk stub"),
@@ -31,7 +31,7 @@ UNIT = dict(
         dict(kind="model", file="uring_model.rs"),
         dict(kind="model", file="batch_complete_model.rs"),
         dict(kind="region", file=WRT, within="impl Writer / fn submit_batch_via_io_uring", start="// Phase 3: Atomic submission", end=None,
-             sig="fn batch_complete(ring: &mut RingG, sys: &mut Sys, g: &mut GlobalsW, write_plan: &Vec<(Block, u64, usize)>, buffers: &Vec<Vec<u8>>, revert_info: &mut BatchRevertInfo, cur_offset: &mut u64, planning_offset: u64, total_bytes: usize) -> (ret: IoResult<()>)",
+             sig="fn batch_complete(ring: &mut RingG, sys: &mut Sys, g: &mut GlobalsW, write_plan: &Vec<(Block, u64, usize)>, batch: &[&[u8]], buffers: &Vec<Vec<u8>>, revert_info: &mut BatchRevertInfo, cur_offset: &mut u64, planning_offset: u64, total_bytes: usize) -> (ret: IoResult<()>)",
              rules=RULES,
              requires=[("", "!old(ring).submitted@"), ("", "buffers.len() == write_plan.len()"),
                        ("", "plan_inside_files(write_plan@, *old(sys))"), ("", "plan_paths_ok(write_plan@)"), ("", "*old(cur_offset) == old(revert_info).original_offset")],
@@ -45,9 +45,9 @@ UNIT = dict(
                  0: dict(kind="for", expect=r"completion_next", n_loops=8, invariant=[
                      ("", "ring.submitted@"), ("", "ring.cqes@.len() == write_plan.len()"), ("", "is_permutation_of_ops(ring.cqes@, write_plan.len() as int)"),
                      ("", "buffers.len() == write_plan.len()"), ("", "*sys == *old(sys)"), ("", "*cur_offset == *old(cur_offset)"), ("", "*revert_info == *old(revert_info)"),
-                     ("C04:batch_ok_only_if_every_write_completed_in_full", "all_success ==> ring.taken@ == __k && forall|j: int| 0 <= j < __k ==> (#[trigger] ring.cqes@[j]).1 >= 0 && ring.cqes@[j].1 as int == buffers[ring.cqes@[j].0 as int].len()"),
+                     ("C04,C08:batch_ok_only_if_every_write_completed_in_full", "all_success ==> ring.taken@ == __k && forall|j: int| 0 <= j < __k ==> (#[trigger] ring.cqes@[j]).1 >= 0 && ring.cqes@[j].1 as int == buffers[ring.cqes@[j].0 as int].len()"),
                  ], ensures=[
-                     ("C04:batch_ok_only_if_every_write_completed_in_full", "all_success ==> forall|j: int| 0 <= j < write_plan.len() ==> (#[trigger] ring.cqes@[j]).1 >= 0 && ring.cqes@[j].1 as int == buffers[ring.cqes@[j].0 as int].len()"),
+                     ("C04,C08:batch_ok_only_if_every_write_completed_in_full", "all_success ==> forall|j: int| 0 <= j < write_plan.len() ==> (#[trigger] ring.cqes@[j]).1 >= 0 && ring.cqes@[j].1 as int == buffers[ring.cqes@[j].0 as int].len()"),
                  ]),
                  1: dict(kind="for", expect=r"sys_flush", n_loops=8, invariant_except_break=[("", "seen_synced(fsynced.s@, *sys)"), ("", "all_success"),
                      ("C10:every_file_a_batch_wrote_to_is_flushed_before_the_batch_is_acknowledged", "plan_synced(write_plan@, *sys, __i as int)")],
@@ -82,7 +82,7 @@ UNIT = dict(
                  ]),
              },
              ensures=[
-                 ("C04:batch_ok_only_if_every_write_completed_in_full",
+                 ("C04,C08:batch_ok_only_if_every_write_completed_in_full",
                   "ret is Ok ==> final(ring).submitted@ && forall|k: int| 0 <= k < write_plan.len() ==> (#[trigger] final(ring).cqes@[k]).1 >= 0 && final(ring).cqes@[k].1 as int == buffers[final(ring).cqes@[k].0 as int].len()"),
                  ("C04:batch_ok_publishes_the_planned_offset", "ret is Ok ==> *final(cur_offset) == planning_offset"),
                  ("C10:every_file_a_batch_wrote_to_is_flushed_before_the_batch_is_acknowledged", "ret is Ok ==> plan_synced(write_plan@, *final(sys), write_plan@.len() as int)"),
